@@ -152,12 +152,12 @@ Proof. destruct d; cbn; [reflexivity|now rewrite app_nil_r]. Qed.
 (* copyfile of a file entry over an existing non-directory, no stale '#new' *)
 Definition copyfile_staged_shape_stmt : Prop := forall um s x d hl cp n,
   e_kind x = KFile d hl -> canon s (e_loc x) = WOk cp -> node_at s cp = Some n ->
-  is_dir_node n = false -> lookup s (sibling_new cp) = None ->
+  is_dir_node n = false -> lookup s (sibling_new cp) = None -> name_too_long (sibling_new cp) = false ->
   copyfile um s x =
     (replace_ops (sibling_new cp) cp (file_create_mode um) (chunks1 d) (perms_new x (sibling_new cp)), None).
 Lemma copyfile_staged_shape_proof : copyfile_staged_shape_stmt.
 Proof.
-  intros um s x d hl cp n Hk Hc Hn Hd Hst. unfold copyfile. rewrite Hc, Hn, Hd.
+  intros um s x d hl cp n Hk Hc Hn Hd Hst Hnl. unfold copyfile. rewrite Hc, Hn, Hd. cbv zeta. rewrite Hnl.
   unfold create_ops. rewrite Hk, Hst. unfold replace_ops, chunks1, appends.
   destruct (is_nil d); reflexivity.
 Qed.
